@@ -167,6 +167,8 @@ impl Iterator for ForceProgressIterator<'_> {
     type Item = usize;
 
     fn next(&mut self) -> Option<Self::Item> {
+        #[cfg(feature = "verif-hooks")]
+        crate::verif::step(crate::verif::site::FORCE_PROGRESS);
         if self.count_zero_length > 3 {
             return None;
         }
